@@ -35,7 +35,7 @@ import (
 
 type File struct {
 	Name    string `json:"name"`
-	Kind    string `json:"kind"` // file, dir, dangling (symlink to nothing)
+	Kind    string `json:"kind"` // file, dir, dangling (symlink to nothing), link (symlink to a regular file outside the workspace)
 	Content string `json:"content,omitempty"`
 }
 
@@ -218,7 +218,11 @@ func (Prop) Generate(seed uint64, tier string) *core.Plan {
 			// a file written on another platform: CR LF line ends (blank space between statements)
 			content = strings.ReplaceAll(content, "\n", "\r\n")
 		}
-		w.Files = append(w.Files, File{Name: names[i], Kind: "file", Content: content})
+		kind := "file"
+		if r.Intn(8) == 0 {
+			kind = "link" // a script shared between workspaces: a symbolic link to a regular file elsewhere
+		}
+		w.Files = append(w.Files, File{Name: names[i], Kind: kind, Content: content})
 	}
 	// decoys
 	if r.Intn(2) == 0 {
@@ -328,7 +332,7 @@ func reference(w *Workload, loc *time.Location) expectation {
 	default:
 		found := false
 		for _, f := range w.Files {
-			if f.Name == w.Script && f.Kind == "file" {
+			if f.Name == w.Script && (f.Kind == "file" || f.Kind == "link") {
 				set[f.Name] = f.Content
 				found = true
 			}
@@ -461,6 +465,13 @@ func (Prop) Run(p *core.Plan) *core.Result {
 			err = os.MkdirAll(path, 0o755)
 		case "dangling":
 			err = os.Symlink(filepath.Join(dir, "nowhere"), path)
+		case "link":
+			target := filepath.Join(dir, "shared", "real_"+filepath.Base(f.Name)+".txt")
+			if err = os.MkdirAll(filepath.Dir(target), 0o755); err == nil {
+				if err = os.WriteFile(target, []byte(f.Content), 0o644); err == nil {
+					err = os.Symlink(target, path)
+				}
+			}
 		default:
 			err = os.WriteFile(path, []byte(f.Content), 0o644)
 		}
@@ -739,7 +750,7 @@ func (Prop) Shrink(p *core.Plan) []*core.Plan {
 		mk(nw)
 	}
 	for i := range w.Files {
-		if w.Files[i].Kind != "file" {
+		if w.Files[i].Kind != "file" && w.Files[i].Kind != "link" {
 			continue
 		}
 		lines := strings.Split(strings.TrimRight(w.Files[i].Content, "\n"), "\n")
